@@ -80,6 +80,9 @@ def dispatch (st : DState) (toks : List String) : DState × String :=
   | ["S", "ctflatinv"] => (st, "ok")
   | ["S", "ctflatown"] => (st, "ok")
   | ["S", "attributed"] => (st, "ok")
+  | ["S", "jran"] => (st, "ok")
+  | ["S", "tstore-static"] => (st, "ok")
+  | "S" :: "stdwork" :: _ => (st, "ok")
   | ["S", "jp"] => (st, "ok")
   | ["S", "gas"] => (st, "ok")
   | ["S", "node"] => (st, "ok")
